@@ -163,7 +163,14 @@ def play_single(call: str, item: str):
         else:
             r = cls()
             r.MessageIDBeingRespondedTo = 1
-            if item != "INV":
+            if item in ("SU", "WU"):
+                # a Success / Warning (0107H) response whose reply data set cannot be decoded (a sequence of undefined length
+                # whose content is not an item)
+                from io import BytesIO
+                r.Status = 0x0000 if item == "SU" else 0x0107
+                junk = BytesIO(b"\x08\x00\x15\x11\xff\xff\xff\xff" + b"\x01\x02\x03\x04\x05\x06\x07\x08")
+                setattr(r, {N_ACTION: "ActionReply", N_EVENT_REPORT: "EventReply"}.get(cls, "AttributeList"), junk)
+            elif item != "INV":
                 r.Status = 0x0000 if item == "S" else 0x0110 if cls not in (C_ECHO, C_STORE) else 0xA700 if cls is C_STORE else 0x0122
             if cls in (N_ACTION,) and item != "INV":
                 r.ActionTypeID = 1
@@ -204,6 +211,8 @@ def run(ctx: Ctx) -> int:
     singles = model_scripts(ctx, "SINGLE", 1)
     for call in ("send_c_echo", "send_c_store", "send_n_get", "send_n_set", "send_n_action", "send_n_create", "send_n_delete", "send_n_event_report"):
         for sc in singles:
+            if sc[0] in ("SU", "WU") and call not in ("send_n_get", "send_n_set", "send_n_action", "send_n_create", "send_n_event_report"):
+                continue          # (these responses carry no reply data set)
             obs.append(play_single(call, sc[0]))
     for k, o in enumerate(obs):
         o["id"] = k + 1
@@ -216,7 +225,7 @@ def run(ctx: Ctx) -> int:
         if v == "ok" and o["exc"]:
             v = "C24_Raised"
         if v != "ok":
-            first_bad = next((it for it in o["script"] if it in ("PU", "FU", "INV", "WRONG", "SILENCE", "STORE", "WL")), "plain")
+            first_bad = next((it for it in o["script"] if it in ("PU", "FU", "SU", "WU", "INV", "WRONG", "SILENCE", "STORE", "WL")), "plain")
             ctx.violation({"clause": v, "op": o["op"] if o["op"] != "SINGLE" else o["call"], "feature": first_bad},
                           f"{v}: {o.get('call', o['op'])} peer script {o['script']}: yielded={[(hex(x['st']) if x['st'] >= 0 else 'EMPTY', x['ident'], x['item']) for x in o['y']]} "
                           f"aborted={o['aborted']} lock held at yields={o['locks']} exc={o['exc']}", {"op": o["op"], "call": o.get("call"), "script": o["script"]})
